@@ -351,12 +351,13 @@ func (name *Name) BlockSize() int {
 
 // WriteTo serializes the IDBlock to w.
 func (name *Name) WriteTo(w io.Writer) (int64, error) {
+	// The block size is encoded in one byte, so it must not exceed 255.
 	blockSize := name.BlockSize()
-	if blockSize > 256 {
+	if blockSize > 255 {
 		return 0, ErrNameTooLong
 	}
 	idLen := len(name.Label)
-	if idLen > 256-3 {
+	if idLen > 255-3 {
 		return 0, ErrNameTooLong
 	}
 	written := int64(0)
